@@ -169,6 +169,11 @@ func runScens(prop string, scens []Scen) *ShardResult {
 				}
 			}
 			msg, key := sc.Check(x)
+			if x.Livelock && (msg == "" || strings.Contains(key, "stuck")) {
+				// a spin: library threads kept running up to the step horizon without any effect on the environment
+				msg = fmt.Sprintf("livelock: %d steps without any byte moved, connection opened or closed, or event delivered; threads: %v", x.Steps, x.Threads())
+				key = "symptom=livelock"
+			}
 			if msg != "" {
 				if key == "" {
 					key = msg
